@@ -5,6 +5,7 @@ Engine E1: every input of an explicitly bounded space is built and handed to the
 is compared with a dictionary model written here.  Nothing is sampled.
 """
 import itertools
+import os
 
 import numpy as np
 
@@ -709,6 +710,10 @@ def run_case(case, col, verbose=False):
             return
         col.outcome("mapping", mtype, mp.get("how"), "rejected")
         col.nontriv("screen", arity, len(spec["tn"]), (mtype, mp.get("which"), mp.get("how"), "rejected"), pattern(cells, control))
+        # the same mapping supplied the way every command line step supplies it: stored in an archive next to the rows.  What
+        # the constructor refuses, the loader refuses too (quick tier: the deterministic third of the cases, digest % 3 == 0).
+        if (_TIER["tier"] == "thorough" or int(digest(spec, control, repr(mp))[:6], 16) % 3 == 0) and not (mtype == "nondense" and mp["how"] == "float"):
+            _archive_variant(spec, control, tm, sm, mtype, mp, head, case, col)
         return
     if verbose:
         print("treatment_ids", np.asarray(s.treatment_ids).tolist(), "mapping", [np.asarray(x).tolist() for x in s.treatment_mapping])
@@ -729,6 +734,42 @@ def run_case(case, col, verbose=False):
     col.outcome("mapping", "superset", tuple(np.asarray(s.treatment_ids).ravel().tolist()), tuple(np.asarray(s.sample_ids).tolist()))
     res = judge_screen(spec, control, s, supplied_t=tm, supplied_s=sm)
     _flag(col, case, res, head)
+
+
+def _archive_variant(spec, control, tm, sm, mtype, mp, head, case, col):
+    import h5py
+    import tempfile
+
+    enc = lambda a: np.char.encode(np.asarray(a).astype(str), "utf-8")  # noqa: E731
+    try:
+        good = build(spec, control)
+    except Exception:  # noqa: BLE001
+        return
+    fd, path = tempfile.mkstemp(prefix="c01arch-", suffix=".h5", dir=env.SCRATCH_ROOT)
+    os.close(fd)
+    try:
+        good.save_h5(path)
+        with h5py.File(path, "r+") as f:
+            if tm is not None:
+                for name, data in (("treatment_mapping_names", enc(tm[0])), ("treatment_mapping_doses", np.asarray(tm[1])), ("treatment_mapping_ids", np.asarray(tm[2]))):
+                    del f[name]
+                    f.create_dataset(name, data=data)
+            if sm is not None:
+                for name, data in (("sample_mapping_names", enc(sm[0])), ("sample_mapping_ids", np.asarray(sm[1]))):
+                    del f[name]
+                    f.create_dataset(name, data=data)
+        col.evaluations += 1
+        col.transitions += 1
+        try:
+            Screen.load_h5(path)
+        except Exception:  # noqa: BLE001
+            col.outcome("mapping", mtype, mp.get("how"), "rejected-from-archive")
+            return
+        col.violation(f"C01|mapping|{mtype}-accepted-from-archive|{mp['which']}",
+                      f"{head}: the constructor rejects this {mp['which']} mapping, but Screen.load_h5 accepts an archive that stores it next to the same rows", case)
+    finally:
+        if os.path.exists(path):
+            os.remove(path)
 
 
 # ------------------------------------------------------------------ work items
